@@ -189,6 +189,11 @@ def mem_snapshot(app) -> dict:
         "hb_create": dict(o.runner_creation_time),
         "svc": (dict(o.runner_last_service_start), dict(o.runner_last_service_end)),
         "args_index": {str(k): sorted(v) for k, v in o.args_index.items() if v},
+        "by_task": {k.key: sorted(v) for k, v in o.task_id_to_inv_id.items() if v},
+        "by_call": {k.key: sorted(v) for k, v in o.call_id_to_inv_id.items() if v},
+        "inv_call": {k: v.key for k, v in o.inv_id_to_call_id.items()},
+        "inv_args": {k: sorted(str(a) for a in v) for k, v in o.invocation_args.items() if v},
+        "runner_flags": dict(o.runner_atomic_service_eligible),
         "waiting_for": {k: sorted(v) for k, v in o.blocking_control.waiting_for.items() if v},
         "waited_by": {k: sorted(v) for k, v in o.blocking_control.waited_by.items() if v},
     }
